@@ -202,6 +202,7 @@ func C19(c *core.Ctx) {
 
 	// R4 cause mapping
 	checkCauseMapping(c)
+	triggerFresh(c, "R4")
 
 	// R5 SetFlags
 	checkSetFlags(c)
@@ -725,4 +726,61 @@ func checkSetFlags(c *core.Ctx) {
 	}
 	c.Check("R5", "SetFlags-volume", fn.Pos(), always == 0x07, fmt.Sprintf("unconditional bits %#x (must be TOVOL|ULVOL|DLVOL = 0x07)", always))
 	c.Check("R5", "SetFlags-packets", fn.Pos(), under == 0x38, fmt.Sprintf("bits set iff mnop %#x (must be TONOP|ULNOP|DLNOP = 0x38)", under))
+}
+
+// triggerFresh: SetReportingTrigger only ORs bits into its receiver, so "each cause maps to the trigger of the same
+// name and to no other" needs a receiver that starts at zero for every report: a receiver declared outside the loop
+// over the reports of one message accumulates the causes of all earlier reports.
+func triggerFresh(c *core.Ctx, rule string) {
+	p := c.P
+	m := p.Method(pkgReport, "UsageReportTrigger", "SetReportingTrigger")
+	if m == nil {
+		c.Anchor(rule, "report.UsageReportTrigger.SetReportingTrigger")
+		return
+	}
+	n := 0
+	for _, fn := range p.OwnFuncs() {
+		k := 0
+		for _, ci := range core.Calls(fn, m) {
+			in := ci.(ssa.Instruction)
+			n++
+			k++
+			recv := core.CallRecv(ci)
+			root, _ := core.FieldPath(recv)
+			if fa, ok := recv.(*ssa.FieldAddr); ok {
+				root = fa.X
+				for {
+					if f2, ok := root.(*ssa.FieldAddr); ok {
+						root = f2.X
+						continue
+					}
+					break
+				}
+			}
+			fresh := true
+			why := ""
+			if inAnyLoop(in) {
+				hdr := loopHeaderOf(in)
+				al, isAl := core.Unwrap(root).(*ssa.Alloc)
+				switch {
+				case !isAl:
+					fresh, why = false, "the receiver is not a local of this function"
+				case !inNaturalLoop(al.Block(), hdr):
+					// declared outside: acceptable only if it is reset (a whole-value store) inside the loop before the call
+					reset := false
+					for _, r := range *al.Referrers() {
+						if st, ok := r.(*ssa.Store); ok && st.Addr == ssa.Value(al) && inNaturalLoop(st.Block(), hdr) && core.InstrDominates(st, in) {
+							reset = true
+						}
+					}
+					if !reset {
+						fresh, why = false, "the receiver is declared outside the loop over the reports and not reset inside it"
+					}
+				}
+			}
+			c.Check(rule, fmt.Sprintf("trigger-fresh:%s#%d", core.FnName(fn), k), in.Pos(), fresh,
+				"the usage-report trigger that a cause is mapped into starts empty for every report (SetReportingTrigger only adds bits)"+map[bool]string{true: "", false: " — " + why}[fresh])
+		}
+	}
+	c.Floor(rule, n, 1, "calls of SetReportingTrigger")
 }
